@@ -153,7 +153,8 @@ PROPS["C20"] = {
     "corpus_also": ["C01"],
     "nontrivial": lambda c, g: not g.startswith("- | nil"),
     "rule": "streams with event sizes L-4..L+4 around the limit L (default 65536, 4096, random 2..300; via ReadConfig and all "
-            "Connection.Buffer shapes), endless lines / blank-line runs / comment runs / events, random segmentation, counting "
+            "Connection.Buffer shapes; half of those serve the stream to the connection's second attempt, the first having stopped inside an "
+            "event after its id and event lines), endless lines / blank-line runs / comment runs / events, random segmentation, counting "
             "reader; non-trivial = an event or an error was reported; distinct by case line",
     "hist": hist_with_gen(hist_parse),
     "assumptions": PARSE_ASSUME + [GEN_NOTE],
